@@ -86,7 +86,7 @@ fn lex_join(base: &str, rel: &str) -> String {
 /// Expand a search path as written into a root-relative directory. `base`: what a relative
 /// path is relative to (root-relative).
 fn expand(spec: &str, base: &str) -> String {
-    if let Some(rest) = spec.strip_prefix("@ROOT/") {
+    if let Some(rest) = spec.strip_prefix("/@ROOT/") {
         return lex_join("", &format!("/{rest}"));
     }
     let (first, rest) = spec.split_once('/').unwrap_or((spec, ""));
@@ -126,8 +126,9 @@ fn resolve<'a>(files: &'a [FileSpec], path: &str, depth: u32) -> Node<'a> {
         Some(f) => match &f.kind {
             Kind::File => Node::File(f),
             Kind::Dir => Node::Dir,
+            Kind::Hardlink(_) => Node::Missing,
             Kind::Symlink(t) => {
-                let target = if let Some(abs) = t.strip_prefix("@ROOT/") {
+                let target = if let Some(abs) = t.strip_prefix("/@ROOT/") {
                     abs.to_string()
                 } else {
                     let dir = path.rsplit_once('/').map_or("", |x| x.0);
@@ -295,7 +296,7 @@ pub fn judge(case: &Case, h: &History) -> Option<(String, String)> {
     // load-once: a module file is not opened more often than it is referred to
     if code == 0 {
         for (p, deg) in &case.indegree {
-            let want = format!("@ROOT/{p}");
+            let want = format!("/@ROOT/{p}");
             let opens = h
                 .ops
                 .iter()
@@ -334,9 +335,9 @@ impl Gen<'_> {
 }
 
 const META_SPECS: &[&str] = &[
-    "s1", "./s2", ".", "..", "~/hs", "$ORIGIN/../olib", "@ROOT/abs1", "s1/deep", "~", "$ORIGIN",
+    "s1", "./s2", ".", "..", "~/hs", "$ORIGIN/../olib", "/@ROOT/abs1", "s1/deep", "~", "$ORIGIN",
 ];
-const LIB_SPECS: &[&str] = &["L1", "../L2", "@ROOT/L3", "~/hl", "$ORIGIN/../ol", ".", "~", "./L4/"];
+const LIB_SPECS: &[&str] = &["L1", "../L2", "/@ROOT/L3", "~/hl", "$ORIGIN/../ol", ".", "~", "./L4/"];
 const DEFAULT_LIBS: &[&str] = &["~/.jq", "$ORIGIN/../lib/jq", "$ORIGIN/../lib"];
 /// places that are never searched: copies there must not be loaded
 const DECOY_DIRS: &[&str] = &["w/nowhere", "home/.config", "opt", "w/~", "w/$ORIGIN", "s1"];
@@ -417,7 +418,7 @@ fn gen_directive(g: &mut Gen, i: usize, parent_dir: &str, libs: &[String]) -> Di
                 let tag = g.tag(&format!("via-symlink:{c}"));
                 let real = format!("real/{i}-{}", g.tagn);
                 g.put(FileSpec::file(real.clone(), content(kind, &d.ident, &tag), 0o644));
-                g.put(FileSpec::symlink(c.clone(), format!("@ROOT/{real}")));
+                g.put(FileSpec::symlink(c.clone(), format!("/@ROOT/{real}")));
             }
             8 => {
                 // symlink loop
@@ -503,13 +504,13 @@ pub fn gen_case(rng: &mut Rng) -> Case {
         tagn: 0,
     };
     let env = vec![
-        ("HOME".to_string(), format!("@ROOT/{HOME}")),
+        ("HOME".to_string(), format!("/@ROOT/{HOME}")),
         ("PATH".to_string(), "/usr/bin".to_string()),
     ];
     // where the main program lives
     let (main_as, parent_dir): (Option<&str>, &str) = match g.rng.usize(4) {
         0 => (Some("progs/main.jq"), "w/progs"),
-        1 => (Some("@ROOT/pabs/main.jq"), "pabs"),
+        1 => (Some("/@ROOT/pabs/main.jq"), "pabs"),
         2 => (Some("main.jq"), "w"),
         _ => (None, "w"),
     };
@@ -677,7 +678,7 @@ pub fn gen_case(rng: &mut Rng) -> Case {
                 let p = format!("absmods/m{i}.{ext}");
                 let tag = format!("ABS:{p}");
                 g.files.push(FileSpec::file(p.clone(), content(&d.kind, &d.ident, &tag), 0o644));
-                d.name = format!("@ROOT/absmods/m{i}");
+                d.name = format!("/@ROOT/absmods/m{i}");
                 d.absolute = true;
             }
             prog = program(&directives);
@@ -685,7 +686,7 @@ pub fn gen_case(rng: &mut Rng) -> Case {
     }
     match main_as {
         Some(p) => {
-            let rel = p.strip_prefix("@ROOT/").map(|s| s.to_string()).unwrap_or(lex_join(CWD, p));
+            let rel = p.strip_prefix("/@ROOT/").map(|s| s.to_string()).unwrap_or(lex_join(CWD, p));
             g.put(FileSpec::file(rel, format!("{prog}\n"), 0o644));
             argv.push("-f".into());
             argv.push(p.to_string());
@@ -784,7 +785,7 @@ pub fn eval(case: &Case, wk: &mut Worker) -> Result<(Option<(String, String)>, H
 
 fn judge_loadonce(case: &Case, h: &History) -> Option<(String, String)> {
     for (p, deg) in &case.indegree {
-        let want = format!("@ROOT/{p}");
+        let want = format!("/@ROOT/{p}");
         let opens = h
             .ops
             .iter()
@@ -838,7 +839,7 @@ fn shrink_candidates(case: &Case) -> Vec<Case> {
 fn set_program(c: &mut Case, prog: &str) {
     if let Some(i) = c.argv.iter().position(|a| a == "-f") {
         let p = c.argv[i + 1].clone();
-        let rel = p.strip_prefix("@ROOT/").map(|s| s.to_string()).unwrap_or(lex_join(CWD, &p));
+        let rel = p.strip_prefix("/@ROOT/").map(|s| s.to_string()).unwrap_or(lex_join(CWD, &p));
         if let Some(f) = c.files.iter_mut().find(|f| f.path == rel) {
             f.bytes = Blob(format!("{prog}\n").into_bytes());
         }
